@@ -898,7 +898,14 @@ class FortranReaderBase:
                 # look like on their own (e.g. a lone 'call s(i)' or
                 # '10 continue' starting in column one).
                 self.reader.set_format(self._format)
-                result = self.reader.next(ignore_comments=ignore_comments)
+                try:
+                    result = self.reader.next(ignore_comments=ignore_comments)
+                except StopIteration:
+                    # The included file holds no line item at all (it is
+                    # empty or holds only blank/comment lines that are
+                    # being ignored): carry on with this reader.
+                    self.reader = None
+                    return self.next(ignore_comments=ignore_comments)
                 return result
             return item
         except StopIteration:
